@@ -15,6 +15,10 @@ Per generated module set (check/props/schema_gen.py, plus the feature schemas be
           evaluated by Entry.Find (harness/go/c17.go `find17`, position recovered through Parent pointers) and by
           the extracted Schema.Find (harness/ml/cmd_c17.ml): found/not found, position, name and kind of the
           result must agree, and so must the two forests after the queries (frame of the on-demand creation).
+  late    (implementation only) every set's lookups are repeated on a fresh module set that, after Process and after
+          the module trees have been collected, loads an unrelated module, a rejected text and a missing file WITHOUT
+          processing again: every lookup must return what it returned without the late load (positions recovered by
+          pointer identity of the tree roots collected before) and the trees must be unchanged.
   revisions (implementation only; the core model has no revisions) text-level family: module lib loaded in 2-3
           revisions with partly different children, users importing it with revision-date, without, and under two
           prefixes at once, many load orders; absolute paths through those import prefixes from the users' nodes
@@ -441,6 +445,29 @@ def check_batch(res, schemas, rnd, budget, stats):
         parsed.append((j, [r.split("|", 1)[1] for r in rs], line, ctxs))
         ml_cases.append(ml_find_case(sc, opts, qs, ctxs))
     ml = lib.run_ml(ml_cases)
+    # the same lookups once more on a fresh set that, after Process, loads an unrelated module, a rejected text and a
+    # missing file WITHOUT processing again: the trees held by the caller stay the processed ones
+    late = lib.run_go([go_find_case(sc, "l", qs) for sc, qs, _ in work])
+    for (sc, qs, _), pj, lline in zip(work, parsed, late):
+        if pj is None:
+            continue
+        rep = dict(kind="find17", schema=sc, queries=[dict(x, go=list(x["go"]), ml=list(x["ml"])) for x in qs], late=True)
+        if not lline.startswith("{"):
+            res.violation("find17 (late load) crashed on the implementation: %s" % lline[:300], rep)
+            continue
+        lj = json.loads(lline)
+        lres = [r.split("|", 1)[1] for r in lj["find"]]
+        stats["late_sets"] += 1
+        bad = 0
+        for x, g, l in zip(qs, pj[1], lres):
+            if g != l and bad < 2:
+                bad += 1
+                res.violation("after a late Parse/Read without Process, Find(%r) from %s returned %s; before it %s (the path names %s)"
+                              % (x["path"], x["go"], l, g, x["want"]), dict(rep, query=dict(x, go=list(x["go"]), ml=list(x["ml"])), impl=l))
+        for r in lj["runs"]:
+            r["modules"] = [m for m in r.get("modules") or [] if not m["name"].startswith("zz-late-")]
+        if sg.canon_go(json.dumps(lj))[1] != sg.canon_go(pj[2])[1] and bad < 2:
+            res.violation("the module trees changed by a late Parse/Read without Process", rep)
     for (sc, qs, canon0), pj, mline, mcase in zip(work, parsed, ml, ml_cases):
         if pj is None:
             continue
@@ -594,7 +621,7 @@ def run(res, tier, seed, proof):
     rnd = random.Random(seed)
     n = 140 if tier == "quick" else 2500
     budget = 330 if tier == "quick" else 600
-    stats = dict(status={}, impl_lookups=0, features={}, queries={}, tied=0, revision_sets=0, revision_lookups=0)
+    stats = dict(status={}, impl_lookups=0, features={}, queries={}, tied=0, revision_sets=0, revision_lookups=0, late_sets=0)
     schemas = feature_schemas() + gen_schemas(rnd, n)
     for i in range(0, len(schemas), 400):
         check_batch(res, schemas[i:i + 400], rnd, budget, stats)
@@ -610,7 +637,7 @@ def run(res, tier, seed, proof):
         exhaustive=False, module_sets=len(schemas), clean=clean, clean_ratio=round(clean / max(1, len(schemas)), 3),
         distribution=dict(status=stats["status"], features=stats["features"], queries=stats["queries"],
                           impl_pointer_lookups=stats["impl_lookups"], tied_sets=stats["tied"],
-                          pinned_revision_sets=stats["revision_sets"], pinned_revision_lookups=stats["revision_lookups"]),
+                          late_load_sets=stats["late_sets"], pinned_revision_sets=stats["revision_sets"], pinned_revision_lookups=stats["revision_lookups"]),
         samples=[sg.render_module(m)[:300] for m in schemas[2][:2]],
     )
     if clean * 10 < len(schemas) * 6:
@@ -652,6 +679,15 @@ def replay(rep, res):
     if rep.get("queries"):
         qs = [dict(x, go=(x["go"][0], tuple(tuple(s) for s in x["go"][1])), ml=(x["ml"][0], tuple(tuple(s) for s in x["ml"][1])))
               for x in rep["queries"]]
+        if rep.get("late"):
+            g0 = lib.run_go([go_find_case(sc, "-", qs), go_find_case(sc, "l", qs)])
+            a, b = (json.loads(x)["find"] if x.startswith("{") else None for x in g0)
+            for x, r1, r2 in zip(qs, a or [], b or []):
+                if r1 != r2:
+                    print("late load: query %s from %s: before=%s after=%s" % (x["path"], x["go"], r1, r2))
+                    rc = 1
+            if a is None or b is None:
+                rc = 1
         g = lib.run_go([go_find_case(sc, "-", qs)])[0]
         if g.startswith("{"):
             rs = json.loads(g)["find"]
